@@ -84,26 +84,31 @@ Record cpu := mkCpu {
   ssum : Z;              (* state_sum *)
   ovf : bool;            (* build with arithmetic-overflow checks? *)
   sock : bool;           (* control socket attached (Cpu::send_message delivers) *)
-  console : list Z       (* bytes printed to the console *)
+  console : list Z;      (* bytes printed to the console *)
+  fault : bool           (* fetch_fault: an instruction word could not be fetched *)
 }.
 
 (* record updates *)
 Definition set_pc (v : Z) (s : cpu) : cpu :=
-  mkCpu v (opc s) (ccr s) (er s) (cbus s) (irq s) (exit_addr s) (ssum s) (ovf s) (sock s) (console s).
+  mkCpu v (opc s) (ccr s) (er s) (cbus s) (irq s) (exit_addr s) (ssum s) (ovf s) (sock s) (console s) (fault s).
 Definition set_opc (v : Z) (s : cpu) : cpu :=
-  mkCpu (pc s) v (ccr s) (er s) (cbus s) (irq s) (exit_addr s) (ssum s) (ovf s) (sock s) (console s).
+  mkCpu (pc s) v (ccr s) (er s) (cbus s) (irq s) (exit_addr s) (ssum s) (ovf s) (sock s) (console s) (fault s).
 Definition set_ccr (v : Z) (s : cpu) : cpu :=
-  mkCpu (pc s) (opc s) v (er s) (cbus s) (irq s) (exit_addr s) (ssum s) (ovf s) (sock s) (console s).
+  mkCpu (pc s) (opc s) v (er s) (cbus s) (irq s) (exit_addr s) (ssum s) (ovf s) (sock s) (console s) (fault s).
 Definition set_regs (v : regs) (s : cpu) : cpu :=
-  mkCpu (pc s) (opc s) (ccr s) v (cbus s) (irq s) (exit_addr s) (ssum s) (ovf s) (sock s) (console s).
+  mkCpu (pc s) (opc s) (ccr s) v (cbus s) (irq s) (exit_addr s) (ssum s) (ovf s) (sock s) (console s) (fault s).
 Definition set_bus (v : bus) (s : cpu) : cpu :=
-  mkCpu (pc s) (opc s) (ccr s) (er s) v (irq s) (exit_addr s) (ssum s) (ovf s) (sock s) (console s).
+  mkCpu (pc s) (opc s) (ccr s) (er s) v (irq s) (exit_addr s) (ssum s) (ovf s) (sock s) (console s) (fault s).
 Definition set_irq (v : list Z) (s : cpu) : cpu :=
-  mkCpu (pc s) (opc s) (ccr s) (er s) (cbus s) v (exit_addr s) (ssum s) (ovf s) (sock s) (console s).
+  mkCpu (pc s) (opc s) (ccr s) (er s) (cbus s) v (exit_addr s) (ssum s) (ovf s) (sock s) (console s) (fault s).
 Definition set_ssum (v : Z) (s : cpu) : cpu :=
-  mkCpu (pc s) (opc s) (ccr s) (er s) (cbus s) (irq s) (exit_addr s) v (ovf s) (sock s) (console s).
+  mkCpu (pc s) (opc s) (ccr s) (er s) (cbus s) (irq s) (exit_addr s) v (ovf s) (sock s) (console s) (fault s).
 Definition set_console (v : list Z) (s : cpu) : cpu :=
-  mkCpu (pc s) (opc s) (ccr s) (er s) (cbus s) (irq s) (exit_addr s) (ssum s) (ovf s) (sock s) v.
+  mkCpu (pc s) (opc s) (ccr s) (er s) (cbus s) (irq s) (exit_addr s) (ssum s) (ovf s) (sock s) v (fault s).
+Definition set_fault (v : bool) (s : cpu) : cpu :=
+  mkCpu (pc s) (opc s) (ccr s) (er s) (cbus s) (irq s) (exit_addr s) (ssum s) (ovf s) (sock s) (console s) v.
+Definition set_exit (v : Z) (s : cpu) : cpu :=
+  mkCpu (pc s) (opc s) (ccr s) (er s) (cbus s) (irq s) v (ssum s) (ovf s) (sock s) (console s) (fault s).
 
 Definition bset_vec v b := mkBus v (b_dram b) (b_io1 b) (b_ram b) (b_io2 b) (b_pin b) (b_latch b) (b_sum b) (b_msgs b) (b_tmr b).
 Definition bset_dram v b := mkBus (b_vec b) v (b_io1 b) (b_ram b) (b_io2 b) (b_pin b) (b_latch b) (b_sum b) (b_msgs b) (b_tmr b).
